@@ -58,7 +58,14 @@ def branch(draw, name, npar_key, horizon, n_in=1):
                 flags.add("stateful")
         body.append(node)
     names = (["key"] if npar_key else []) + ["x", "y"][:n_in]
-    return {"params": ["TS[int]"] * len(names), "names": names, "out": "TS[int]", "stmts": body, "ret": f"b{n - 1}"}, sorted(flags)
+    ret = f"b{n - 1}"
+    if draw(st.integers(0, 3)) == 0:
+        # the branch ENDS in a nested graph node (its terminal is a nested operator: the switch output then forwards to the
+        # child's terminal); whether the keyed branches, the default, or both do so is up to the draw
+        body.append({"id": "tail", "op": "nested", "sub": "NT", "ins": [ret]})
+        ret = "tail"
+        flags.add("nested_terminal")
+    return {"params": ["TS[int]"] * len(names), "names": names, "out": "TS[int]", "stmts": body, "ret": ret}, sorted(flags)
 
 
 @st.composite
@@ -88,8 +95,12 @@ def case(draw, tier):
         key_script.append([t, [{"k": "set", "v": draw(st.sampled_from(keyvals if (has_default or (unmatched and t == times[-1])) else list(range(nb))))}]])
     x_script = draw(gen.int_script(start, end - 1, max_size=9 if big else 6))
     y_script = draw(gen.int_script(start, end - 1, max_size=6 if big else 4)) if n_in == 2 else None
+    subs["NT"] = {"params": ["TS[int]"], "names": ["v"], "out": "TS[int]", "ret": "nt",
+                  "stmts": [{"id": "nt", "op": "node", "ins": [{"arg": 0}], "out": "TS[int]", "fn": "sum", "bias": 10000, "log_inputs": False}]}
     if coll_out:
-        for sub in subs.values():
+        for sn, sub in subs.items():
+            if sn == "NT":
+                continue
             sub["stmts"].append({"id": "coll", "op": "op", "name": "collect", "args": [{"ts": sub["ret"]}], "has_out": True, "out": "TSS[int]"})
             sub["ret"] = "coll"
             sub["out"] = "TSS[int]"
@@ -177,6 +188,9 @@ def check(case, ctx) -> Result:
             exp += [(t, v) for (t, v, _) in st_.stream(f"r{i}") if ts <= t < te]
     tr = Trace(resp["trace"])
     got = [(t, v) for (t, v, _) in tr.stream("rec", 0, "r")]
+    # a switch whose output forwards to a nested terminal re-binds at a switch-over: the consumer may then see one tick with
+    # NO value (the new branch has produced nothing yet). That is the reset becoming visible, not a value of any branch.
+    got = [(t, v) for (t, v) in got if v is not None]
     if case.get("coll_out"):
         # state comparison: at every tick of either run the switch output must hold exactly what the CURRENT instance alone
         # has collected so far (an empty tick more or less does not matter; a stale element does)
@@ -212,7 +226,8 @@ def check(case, ctx) -> Result:
             now = e[2]
         elif e[0] == "gs" and isinstance(e[1], str) and e[1] != "r":
             alive.add(e[1]); born[e[1]] = now if now is not None else start
-            max_alive = max(max_alive, len(alive))
+            # branch instances are the DIRECT children of the switch node (a branch may contain nested graphs of its own)
+            max_alive = max(max_alive, len([g_ for g_ in alive if g_.count("/") == 1]))
         elif e[0] == "gp" and isinstance(e[1], str) and e[1] != "r":
             alive.discard(e[1]); died[e[1]] = now
         elif e[0] == "ev" and e[1] != "r":
